@@ -44,8 +44,10 @@ class Gen:
         self.copied.append({'item': '%s %s' % (kw, name), 'file': 'src/%s.rs' % f, 'line': s.line_of(a)})
         return s.s[a:e]
 
-    def const(self, f, name, static_str=False):
+    def const(self, f, name, static_str=False, expect_text=None):
         s = self.S(f); a, e = s.find_const(name)
+        if expect_text is not None and ' '.join(expect_text.split()) not in ' '.join(s.s[a:e].split()):
+            raise LostAnchor('const %s: expected table text not found (edited or reordered: the index-wise proof does not apply)' % name)
         self.copied.append({'item': 'const ' + name, 'file': 'src/%s.rs' % f, 'line': s.line_of(a)})
         t = s.s[a:e]
         if static_str:
